@@ -445,6 +445,30 @@ class Ctx:
         return True
 
 
+def sanitize_coverage(cov):
+    """keep the schema-typed keys of the evidence well-typed whatever a property module put there"""
+    if "exhaustive" in cov and not isinstance(cov["exhaustive"], bool):
+        cov["exhaustive_note"] = str(cov["exhaustive"])
+        cov["exhaustive"] = False
+    for k in ("evaluations", "distinct_nontrivial", "states", "transitions", "traces_validated_against_impl",
+              "obligations", "discharged", "programs", "disagreements_checked"):
+        if k in cov and not isinstance(cov[k], int):
+            try:
+                cov[k] = int(cov[k])
+            except Exception:
+                cov[k + "_note"] = str(cov.pop(k))
+        if k in cov and cov[k] < 0:
+            cov[k] = 0
+    if "samples" in cov and not isinstance(cov["samples"], list):
+        cov["samples"] = [cov["samples"]]
+    if "trusted_base" in cov:
+        cov["trusted_base"] = [str(x) for x in cov["trusted_base"]]
+    for k in ("rule", "checker_cmd", "explanation"):
+        if k in cov and not isinstance(cov[k], str):
+            cov[k] = json.dumps(cov[k])
+    return cov
+
+
 def finish(ctx, level="proof"):
     os.makedirs(os.path.join(VERIF, "replays"), exist_ok=True)
     os.makedirs(os.path.join(VERIF, "evidence"), exist_ok=True)
@@ -467,7 +491,7 @@ def finish(ctx, level="proof"):
         tail = " no-failing-input-found" if v["no_input"] else ""
         print("VIOLATION property=%s replay=%s%s" % (ctx.pid, path, tail))
         nviol += 1
-    cov = dict(ctx.coverage)
+    cov = sanitize_coverage(dict(ctx.coverage))
     ev = dict(property_id=ctx.pid, tier=ctx.tier, seed=ctx.seed, level=level, coverage=cov,
               assumptions=ctx.assumptions, wall_s=round(time.time() - ctx.t0, 2),
               violations=nviol, known_findings=[k.get("id") for k in ctx.known])
